@@ -6,10 +6,12 @@ import (
 	"fmt"
 	"math/big"
 	"os"
+	"os/exec"
 	"path/filepath"
 	"strings"
 	"sync"
 	"sync/atomic"
+	"syscall"
 	"time"
 
 	"verif/harness/ev"
@@ -513,6 +515,28 @@ func c19Body(c *ev.Ctx) {
 			}
 			run(sjobs)
 		}
+		// ---- a termination signal arriving in the middle of a one-shot command (stdin still open): the
+		// command did not do its work, so it must not report success
+		for _, mode := range []string{"deletion"} {
+			e := envs[mode]
+			for _, sig := range []syscall.Signal{syscall.SIGTERM, syscall.SIGINT} {
+				for _, cmdline := range [][]string{
+					{"verify", "--mode", mode, "--keys-file", e.keys, "--input-hash", "0x" + e.hash.Text(16)},
+					{"prove", "--mode", mode, "--keys-file", e.keys}} {
+					if quick && sig == syscall.SIGINT && cmdline[0] == "prove" {
+						continue
+					}
+					exit, out, ok := runCLISignalled(sig, cmdline...)
+					if !ok {
+						continue // could not be started / ended before the signal: nothing to judge
+					}
+					note("signal|" + cmdline[0])
+					if exit == 0 {
+						c.Violation(fmt.Sprintf("signal|%s|%v", cmdline[0], sig), fmt.Sprintf("`%s` interrupted by %v while waiting for its input exits with status 0 (stdout %d bytes): success reported for work that was not done", cmdline[0], sig, len(out)), c19Case{Stage: "signal", SysMode: mode, D: d, B: b, Steps: append([]string{sig.String()}, cmdline...)})
+					}
+				}
+			}
+		}
 		// unknown / missing mode for the commands that take one and no keys
 		for _, cmdline := range [][]string{{"setup", "--output", filepath.Join(scratchDir(), "x.ps"), "--tree-depth", "1", "--batch-size", "1"}, {"setup", "--mode", "bogus", "--output", filepath.Join(scratchDir(), "x.ps"), "--tree-depth", "1", "--batch-size", "1"}, {"gen-test-params", "--tree-depth", "2", "--batch-size", "1"}, {"gen-test-params", "--mode", "bogus", "--tree-depth", "2", "--batch-size", "1"}, {"r1cs", "--mode", "bogus", "--output", filepath.Join(scratchDir(), "x.r1cs"), "--tree-depth", "1", "--batch-size", "1"}} {
 			r, err := runCLI(nil, 10*time.Minute, cmdline...)
@@ -567,4 +591,49 @@ func c19Why(mf, mode, k, pk string) string {
 		w = append(w, "the parameters are "+pk)
 	}
 	return strings.Join(w, ", ")
+}
+
+// runCLISignalled starts a command with its stdin held open (so that it cannot finish its work), lets it
+// get under way, sends the signal and returns the exit status (-1 = killed by the signal). ok=false if the
+// process had already ended when the signal was sent.
+func runCLISignalled(sig syscall.Signal, args ...string) (exit int, stdout []byte, ok bool) {
+	bin, err := repoBinary()
+	if err != nil {
+		return 0, nil, false
+	}
+	cmd := exec.Command(bin, args...)
+	cmd.Dir = scratchDir()
+	var so bytes.Buffer
+	cmd.Stdout = &so
+	pr, pw, err := os.Pipe()
+	if err != nil {
+		return 0, nil, false
+	}
+	cmd.Stdin = pr
+	if err := cmd.Start(); err != nil {
+		pr.Close()
+		pw.Close()
+		return 0, nil, false
+	}
+	pr.Close()
+	done := make(chan struct{})
+	go func() { cmd.Wait(); close(done) }()
+	// not an oracle, only a way of not signalling a process that has not installed anything yet
+	select {
+	case <-done:
+		pw.Close()
+		return 0, nil, false
+	case <-time.After(1500 * time.Millisecond):
+	}
+	cmd.Process.Signal(sig)
+	select {
+	case <-done:
+	case <-time.After(2 * time.Minute):
+		cmd.Process.Kill()
+		<-done
+		pw.Close()
+		return -2, so.Bytes(), true // keeps running after the signal: not success either
+	}
+	pw.Close()
+	return cmd.ProcessState.ExitCode(), so.Bytes(), true
 }
